@@ -161,4 +161,72 @@ theorem auth_all (b : Built name node1 node2 local1 remote1 peer1 auth t) (s : S
     lastVal_none_of_stem (mainPart_good b.h0) s q h1, lastVal_none_of_stem (peerPart_good b.h3) s q h3]
   simp
 
+/-! ### the documented counterpart table (docstring of `__init__`: nic/custom = site, internetip/externalip = point) -/
+
+/-- the right side's remote type describes the left side's local type -/
+def counterRemote (lt : String) : String :=
+  if lt = "nic" then "custom" else if lt = "internetip" then "externalip" else "custom"
+
+/-- the right side's local type describes the left side's remote type (`modeconfig` falls back to `nic`) -/
+def counterLocal (lt rt : String) : String :=
+  if rt = "custom" then (if lt = "custom" then "custom" else "nic")
+  else if rt = "externalip" then "internetip" else "nic"
+
+theorem variant_types {ll lr lp rl rr rp : SDict} (hv : peerVariant ll lr lp = .ok (rl, rr, rp)) :
+    ∃ lt rt pt, ll.get? "type" = some lt ∧ lr.get? "type" = some rt ∧ lp.get? "type" = some pt ∧
+      rl.get? "type" = some (counterLocal lt rt) ∧ rr.get? "type" = some (counterRemote lt) ∧
+      rp.get? "type" = some "ip" := by
+  obtain ⟨lt, rt, pt, h1, h2, h3, hr, hl, hp⟩ := peerVariant_ok hv
+  refine ⟨lt, rt, pt, h1, h2, h3, ?_, ?_, ?_⟩
+  · rcases hl with ⟨rfl, rfl, rfl⟩ | ⟨rfl, hc, _, _, rfl⟩ | ⟨rfl, rfl⟩ | ⟨hn1, hn2, rfl⟩ <;>
+      simp_all [SDict.get?, counterLocal]
+  · rcases hr with ⟨rfl, _, _, rfl⟩ | ⟨rfl, rfl⟩ | ⟨hn1, hn2, rfl⟩ <;> simp_all [SDict.get?, counterRemote]
+  · rcases hp with ⟨_, _, _, rfl⟩ | ⟨_, _, rfl⟩ <;> simp [SDict.get?]
+
+theorem mainPart_total {name n1 n2 : String} {l1 r1 l2 r2 : SDict} {a b c d : String}
+    (h1 : l1.get? "type" = some a) (h2 : l2.get? "type" = some b) (h3 : r1.get? "type" = some c)
+    (h4 : r2.get? "type" = some d) : ∃ x, mainPart name n1 n2 l1 r1 l2 r2 = .ok x := by
+  simp [mainPart, SDict.getItem, h1, h2, h3, h4, bind, Except.bind, pure, Except.pure]
+
+theorem localPart_unsupported {lt : String} (h : local1.get? "type" = some lt)
+    (hbad : lt ∉ ["nic", "internetip", "custom"]) : localPart name node1 node2 local1 = .error .valueError := by
+  simp only [List.mem_cons, List.not_mem_nil, or_false, not_or] at hbad
+  simp [localPart, SDict.getItem, h, hbad, bind, Except.bind, throw, throwThe, MonadExceptOf.throw]
+
+theorem remotePart_unsupported {rt : String} (h : remote1.get? "type" = some rt)
+    (hbad : rt ∉ ["custom", "externalip", "modeconfig"]) :
+    remotePart name node1 node2 local1 remote1 = .error .valueError := by
+  simp only [List.mem_cons, List.not_mem_nil, or_false, not_or] at hbad
+  simp [remotePart, SDict.getItem, h, hbad, bind, Except.bind, throw, throwThe, MonadExceptOf.throw]
+
+theorem peerPart_unsupported {peer2 : SDict} {pt : String} (h : peer1.get? "type" = some pt)
+    (hbad : pt ∉ ["ip", "dynip"]) : peerPart name node1 node2 peer1 peer2 = .error .valueError := by
+  simp only [List.mem_cons, List.not_mem_nil, or_false, not_or] at hbad
+  simp [peerPart, SDict.getItem, h, hbad, bind, Except.bind, throw, throwThe, MonadExceptOf.throw]
+
+theorem authPart_unsupported {n1 n2 : String} {a : SDict} {ty : String} (h : a.get? "type" = some ty)
+    (hbad : ty ∉ ["pubkey", "psk"]) : authPart name n1 n2 (some a) = .error .valueError := by
+  simp only [List.mem_cons, List.not_mem_nil, or_false, not_or] at hbad
+  simp [authPart, SDict.getItem, h, hbad, bind, Except.bind, throw, throwThe, MonadExceptOf.throw]
+
+/-! ### `connects_nodes` -/
+
+def isOk {α : Type} : Except Err α → Bool
+  | .ok _ => true
+  | .error _ => false
+
+/-- a side test on a non-`CUSTOM` side never raises -/
+theorem onSide_ok_of_not_custom (endNode : Node) (net : Option Netconfig) (sp : Dict) (node : Node) (x : String)
+    (h : sp.get? ⟨"vpnconn_lan_type", []⟩ = some x) (hx : x ≠ "CUSTOM") :
+    isOk (onSide endNode net sp node) = true := by
+  unfold onSide
+  by_cases h1 : node.id = endNode.id
+  · simp [h1, isOk, pure, Except.pure]
+  · cases net with
+    | none => simp [h1, Dict.getItem, h, hx, isOk, bind, Except.bind, pure, Except.pure]
+    | some nc =>
+      by_cases h2 : (node.ifaces.any fun p => nc.hasInterface p.2) = true
+      · simp [h1, h2, isOk, bind, Except.bind, pure, Except.pure]
+      · simp [h1, h2, Dict.getItem, h, hx, isOk, bind, Except.bind, pure, Except.pure]
+
 end I2N.Tunnel
